@@ -9,20 +9,35 @@ ID = "C19"
 READY = True
 RULE = ("codec: parameter dictionaries generated from one PRNG (unicode incl. astral planes, separators, percent "
         "signs, typed-prefix look-alikes, awkward floats, big ints, nested lists/dicts); non-trivial = at least one "
-        "parameter whose text needs quoting or a typed prefix; distinct by case hash.  reader: streams of 1-6 framed "
-        "messages (with/without byte payloads, optional corruption) split into random reads; non-trivial = at least "
-        "one message boundary or payload straddles a read")
+        "parameter whose text needs quoting or a typed prefix; distinct by case hash; every line is decoded three times "
+        "(statefulness probe).  reader: streams of 1-6 framed messages (with/without byte payloads, optional corruption) "
+        "split into random reads; non-trivial = at least one message boundary or payload straddles a read.  session: "
+        "histories of 2-12 messages drawn from a pool of 1-4 (lines recur with and without payload), written by the real "
+        "send() of both client classes, cut at random points, read by ONE long-lived client object per class; non-trivial "
+        "= some line occurs both with and without payload and the stream is split.  handler: the same kind of history "
+        "through a real machine (4 configurations: connection direction x logging of bcp_interface/bcp_client) to "
+        "registered command callbacks and trigger events, plus events sent back to a registered client; non-trivial = a "
+        "payload reaches a handler.  pickle: 1-5 messages through BcpPickleClient under random splits")
 TRUSTED_BASE = [
     "Coq 8.16.1 kernel (coqc), vm_compute for refutation witnesses and for evaluating the model in the correspondence run; no native_compute",
     "axioms: none (every Print Assumptions is 'Closed under the global context')",
     "hand-written model coq/C19/Model.v tied to /repo by correspondence: harness/props/c19.py runs "
-    "encode_command_string/decode_command_string/read_message and the model on the same inputs",
-    "CPython: str<->utf-8, str(int)/int(), str(float)/float(), json.dumps/json.loads (text supplied to the model as data), asyncio.StreamReader",
+    "encode_command_string/decode_command_string, send()/read_message()/_process_command of both socket clients, "
+    "BcpTransportManager._receive_loop + BcpInterface.process_bcp_message/bcp_trigger in a real machine, and "
+    "BcpPickleClient, and the model on the same inputs",
+    "CPython: str<->utf-8, str(int)/int(), str(float)/float(), json.loads (json.dumps is modelled: jdumps), pickle.dumps/loads "
+    "(opaque byte strings), asyncio.StreamReader, logging",
     "urllib.parse quote/unquote/parse_qs/urlsplit/urlunparse are MODELLED (byte level) and validated on every run",
+    "instrumentation: _process_command wrapped (reader suite), pickle module of bcp_pickle_client proxied to observe the "
+    "pickled byte strings, MPF test rig (virtual clock, mock sockets)",
 ]
 ASSUMPTIONS = [
     "strings contain no lone surrogates (quote() raises on them); int()/float() text outside [+-]?[0-9]+ / repr(float) is not fed to the model",
-    "lines shorter than asyncio's 64 KiB readline limit",
+    "lines shorter than asyncio's 64 KiB readline limit; pickles shorter than 2^32 bytes",
+    "handler suite: no parameter called client/callback/rawbytes, trigger commands in flat form with a string name "
+    "(collisions with Python parameter names of the interface methods are outside C19)",
+    "the interleaving of a command callback with the handler of an event posted by an earlier trigger command is not "
+    "observed (dispatch = posting is in order; handling belongs to the event queue)",
 ]
 
 # ------------------------------------------------------------------------------------------------
@@ -124,6 +139,52 @@ def is_nested(kw):
     return any(t[0] in ("l", "d") for _, t in kw)
 
 
+def isolated(fn):
+    """Cases of the history suites are complete process histories.  Pool workers run many cases per process (fast; state
+    that leaks from one case into the next only ever makes a stateful decoder MORE visible); the main process (shrinking,
+    --replay) runs every case in a forked child, so that a failure that is kept while shrinking is a failure of that case
+    alone."""
+    import functools
+    import multiprocessing as mp
+    import os
+    import signal
+
+    @functools.wraps(fn)
+    def wrapper(case):
+        if mp.current_process().name != "MainProcess":
+            return fn(case)
+        r, w = os.pipe()
+        pid = os.fork()
+        if pid == 0:
+            try:
+                os.close(r)
+                signal.alarm(50)
+                try:
+                    res = {"ok": fn(case)}
+                except BaseException as e:   # noqa
+                    res = {"exc": "%s: %s" % (type(e).__name__, e)}
+                with os.fdopen(w, "w") as f:
+                    json.dump(res, f)
+            finally:
+                os._exit(0)
+        os.close(w)
+        try:
+            with os.fdopen(r) as f:
+                txt = f.read()
+        finally:
+            try:
+                os.kill(pid, signal.SIGKILL)
+            except OSError:
+                pass
+            os.waitpid(pid, 0)
+        res = json.loads(txt) if txt else {"exc": "child died"}
+        if "exc" in res:
+            raise RuntimeError(res["exc"])
+        return res["ok"]
+    return wrapper
+
+
+@isolated
 def run_codec(case):
     from mpf.core.bcp.bcp_socket_client import encode_command_string, decode_command_string
     kwargs = {k: untag(t) for k, t in case["kw"]}
@@ -142,7 +203,58 @@ def run_codec(case):
             out["notdict"] = repr(dk)
     except ValueError as e:
         out["error"] = "ValueError"
+        return out
+    # decode_command_string is a function of the line: repeated calls give equal, independent results
+    snap = snapshot(dk)
+    cmd2, dk2 = decode_command_string(line)
+    st = {"same_obj": dk2 is dk and isinstance(dk, (dict, list)), "equal2": cmd2 == cmd and snapshot(dk2) == snap}
+    st["shared_inner"] = bool(shared_mutables(dk, dk2)) and not st["same_obj"]
+    poison(dk)
+    poison(dk2)
+    cmd3, dk3 = decode_command_string(line)
+    st["equal3"] = cmd3 == cmd and snapshot(dk3) == snap
+    out["state"] = st
     return out
+
+
+def snapshot(v):
+    """type-exact, order-exact text of a decoded value (bytes payloads included)"""
+    def t(x):
+        if isinstance(x, (bytes, bytearray)):
+            return ["y", list(x)]
+        if isinstance(x, list):
+            return ["l", [t(e) for e in x]]
+        if isinstance(x, dict):
+            return ["d", [[k, t(e)] for k, e in x.items()]]
+        return tagv(x)
+    return json.dumps(t(v))
+
+
+def _mutables(v, acc):
+    if isinstance(v, dict):
+        acc.append(v)
+        for x in v.values():
+            _mutables(x, acc)
+    elif isinstance(v, list):
+        acc.append(v)
+        for x in v:
+            _mutables(x, acc)
+    return acc
+
+
+def shared_mutables(a, b):
+    ida = {id(x) for x in _mutables(a, [])}
+    return [x for x in _mutables(b, []) if id(x) in ida]
+
+
+def poison(v):
+    """what a receiver may do with 'its' kwargs: add keys (payload), pop, append"""
+    for m in _mutables(v, []):
+        if isinstance(m, dict):
+            m["rawbytes"] = b"\x00poison"
+            m["__verif_poison__"] = 1
+        else:
+            m.append("__verif_poison__")
 
 
 def float_text_ok(t):
@@ -186,14 +298,38 @@ def cv(t):
     raise ValueError(k)
 
 
+def cps(st):
+    return zlist([ord(c) for c in st])
+
+
+def cjv(t):
+    k = t[0]
+    if k == "s":
+        return "(JStr %s)" % cps(t[1])
+    if k == "i":
+        return "(JInt %s)" % (t[1] if not t[1].startswith("-") else "(%s)" % t[1])
+    if k == "f":
+        return "(JFloat %s)" % zlist(json.dumps(float(t[1])).encode())      # float.__repr__ / NaN / Infinity: CPython
+    if k == "b":
+        return "(JBool %s)" % blit(t[1])
+    if k == "n":
+        return "JNull"
+    if k == "l":
+        return "(JList %s)" % coqlist(cjv(x) for x in t[1])
+    if k == "d":
+        return "(JDict %s)" % coqlist("(%s, %s)" % (cps(a), cjv(b)) for a, b in t[1])
+    raise ValueError(k)
+
+
 def coq_codec(case, out):
     if not model_domain(case):
         return None
     cmd = zlist(case["cmd"].encode())
     line = zlist(out["line"].encode())
     if is_nested(case["kw"]):
-        # the implementation switches to JSON mode only if it meets the list/dict before finishing the loop: always
-        inp = "(CJson %s %s)" % (cmd, zlist(out["jsontext"].encode()))
+        # the implementation switches to JSON mode only if it meets the list/dict before finishing the loop: always.
+        # The model prints the JSON text itself from the value tree (Model.v jdumps); the observed text is the expectation.
+        inp = "(CJsonT %s %s)" % (cmd, coqlist("(%s, %s)" % (cps(k), cjv(t)) for k, t in case["kw"]))
         exp = "(Some (DJson %s %s))" % (zlist(out.get("cmd", "").encode()), zlist(out["jsontext"].encode()))
         # decoded payload text is compared through json.loads equality by the oracle; here: glue only
         return "(%s, (%s, %s))" % (inp, line, exp)
@@ -230,6 +366,12 @@ def oracle_codec(case, out):
     fails = []
     if "\n" in out["line"]:
         fails.append({"sig": "newline-in-line", "what": "encoded message contains a raw newline"})
+    st = out.get("state")
+    if st and (st["same_obj"] or st["shared_inner"] or not st["equal2"] or not st["equal3"]):
+        fails.append({"sig": "decode-stateful",
+                      "what": "decode_command_string is not a function of the line: repeated calls on %r return %s" %
+                              (out["line"], "the same / shared mutable objects" if (st["same_obj"] or st["shared_inner"])
+                               else "different values") + " (%r)" % st})
     want_cmd, want = case["cmd"], case["kw"]
     nested = is_nested(want)
     if "error" not in out and "notdict" not in out and out.get("cmd") == want_cmd and \
@@ -441,7 +583,7 @@ def coq_reader(case, out):
         # in _process_command, which the framing model does not contain
         return None
     msgs = coqlist("(Msg %s %s)" % (zlist(l), opt(p, zlist)) for l, p in o["msgs"])
-    return "(%s, (%s, %s))" % (coqlist(zlist(c) for c in case["chunks"]), msgs, blit(o["dead"]))
+    return "((%s : list (list Z)), ((%s : list rmsg), %s))" % (coqlist(zlist(c) for c in case["chunks"]), msgs, blit(o["dead"]))
 
 
 def oracle_reader(case, out):
@@ -481,9 +623,9 @@ HDR_READER = "From C19 Require Import Model.\nDefinition run := reader_run.\nDef
 
 SUITES = [
     Suite("codec", gen_codec, run_codec, HDR_CODEC, coq_codec, oracle_codec, shrink_codec, nontrivial_codec,
-          {"quick": 4000, "thorough": 150000}, describe=describe_codec, shard=500),
+          {"quick": 2000, "thorough": 80000}, describe=describe_codec, shard=500),
     Suite("reader", gen_reader, run_reader, HDR_READER, coq_reader, oracle_reader, shrink_reader, nontrivial_reader,
-          {"quick": 1000, "thorough": 40000}, describe=describe_reader, shard=300),
+          {"quick": 600, "thorough": 30000}, describe=describe_reader, shard=150),
 ]
 
 
@@ -558,7 +700,7 @@ def run_dispatch(case):
 def coq_dispatch(case, out):
     inp = coqlist("(%s, %d)" % (blit(m["cmd"] != "vnope"), m["id"]) for m in case["msgs"])
     exp = coqlist("(%s, %d)" % (blit(k == "start"), i) for k, i in out["log"])
-    return "(%s, %s)" % (inp, exp)
+    return "((%s : list (bool * Z)), (%s : list (bool * Z)))" % (inp, exp)
 
 
 def oracle_dispatch(case, out):
@@ -588,14 +730,974 @@ SUITES.append(
           lambda c, o: sum(1 for m in c["msgs"] if m["cmd"] == "vslow" and m["delay8"] > 0) >= 1,
           {"quick": 150, "thorough": 3000}, shard=200))
 
-LEVEL_TEXT = ("Machine-checked proof (Coq) that, in a byte-level model of encode/decode and of the urllib pieces they use, "
-              "decode(encode(cmd,kw)) = (cmd,kw) for every command and every parameter dictionary outside two recorded "
-              "ambiguity classes (each witnessed by a _refuted theorem and reproduced on the code on every run), that an "
-              "encoded message is one line, and that the receiver's output is independent of how the stream is chunked; "
-              "the model is tied to /repo by running both on the same generated inputs on every run.")
+
+# ------------------------------------------------------------------------------------------------
+# sessions: histories of messages through ONE long-lived client object per reader class.  The same lines recur,
+# with and without payload; every delivered (cmd, kwargs) is compared with an expectation computed from that
+# message alone.
+SESSION_CMDS = ["trigger", "play", "x", "dmd_frame", "mode_start", "a1_b", "hello", "hello", "goodbye"]
+SKEYS = [k for k in KEYS if k != "json"] + ["bytes", "name", "n"]
+PAYLOADS = [[], [0], [10], [38, 98, 121, 116, 101, 115, 61, 51, 10], [120, 63, 97, 61, 49, 10], [255, 0, 13, 10, 10],
+            list(range(17)), [65] * 64]
+
+
+def clean_scalar(rng):
+    while True:
+        v = rscalar(rng)
+        if isinstance(v, str) and looks_typed(v):
+            continue
+        return v
+
+
+def clean_nested(rng, depth=0):
+    r = rng.random()
+    if depth > 2 or r < 0.5:
+        return clean_scalar(rng) if depth == 0 else rscalar(rng)      # inside JSON a look-alike string is harmless
+    if r < 0.75:
+        return [clean_nested(rng, depth + 1) for _ in range(rng.randint(0, 3))]
+    return {rstr(rng) or "k": clean_nested(rng, depth + 1) for _ in range(rng.randint(0, 3))}
+
+
+def line_of(cmd, kw):
+    """the text the message must have on the wire, computed without the implementation (for classification only)"""
+    from urllib.parse import quote
+    if is_nested(kw):
+        return None
+    parts = []
+    for k, t in kw:
+        v = untag(t)
+        parts.append(quote(k, "") + "=" + ({"b": "bool:", "i": "int:", "f": "float:", "n": "NoneType:", "s": ""}[t[0]]) +
+                     ("" if v is None else quote(str(v), "")))
+    return cmd + ("?" + "&".join(parts) if parts else "")
+
+
+def has_marker(cmd, kw):
+    if is_nested(kw):
+        return "&bytes=" in json.dumps({k: untag(t) for k, t in kw})
+    return "&bytes=" in line_of(cmd, kw)
+
+
+def gen_msg(rng, allow_marker=False):
+    while True:
+        cmd = rng.choice(SESSION_CMDS)
+        if cmd == "goodbye":
+            return {"cmd": cmd, "kw": [] if rng.random() < 0.8 else [["a", ["i", "1"]]]}
+        n = rng.choice([0, 1, 1, 2, 2, 3, 4])
+        keys = []
+        while len(keys) < n:
+            k = rng.choice(SKEYS) if rng.random() < 0.85 else rstr(rng)
+            if k not in keys and k != "rawbytes" and not (not keys and k == "json"):
+                keys.append(k)
+        nested = rng.random() < 0.2
+        kw = [[k, tagv(clean_nested(rng) if nested else clean_scalar(rng))] for k in keys]
+        if has_marker(cmd, kw) and not allow_marker:
+            continue
+        return {"cmd": cmd, "kw": kw}
+
+
+def gen_session(rng, tier, i):
+    allow = rng.random() < 0.04
+    pool = [gen_msg(rng, allow) for _ in range(rng.randint(1, 4))]
+    pays = [None, None, None] + [rng.choice(PAYLOADS) for _ in range(2)] + \
+           [[rng.randrange(256) for _ in range(rng.choice([1, 3, 9]))]]
+    msgs = []
+    for _ in range(rng.randint(2, 12)):
+        m = rng.choice(pool)
+        pl = rng.choice(pays)
+        if m["cmd"] == "goodbye" and rng.random() < 0.9:
+            pl = None
+        msgs.append({"cmd": m["cmd"], "kw": m["kw"], "payload": pl})
+    k = rng.choice([0, 1, 2, 4, 8, 30])
+    cuts = sorted(set(rng.randrange(0, 40 * len(msgs)) for _ in range(k)))
+    if rng.random() < 0.08:
+        cuts = "bytes"
+    return {"msgs": msgs, "cuts": cuts, "debug": rng.random() < 0.5}
+
+
+class _Cap:
+    """a StreamWriter stand-in: records what send() writes"""
+    def __init__(self):
+        self.data = []
+        self.transport = object()
+        self.closed = 0
+
+    def write(self, b):
+        self.data.append(bytes(b))
+
+    def close(self):
+        self.closed += 1
+
+
+def _mk_client(which, reader, debug):
+    m, MagicMock = _reader_classes()
+    cap = _Cap()
+    if which == "asyncio":
+        cli = m.AsyncioBcpClientSocket(cap, reader)
+    else:
+        cli = m.BCPClientSocket(MagicMock(), "c", MagicMock())
+        cli._receiver = reader
+        cli._sender = cap
+        cli._debug = bool(debug)
+        cli._debug_to_file = bool(debug)
+    return cli, cap
+
+
+def wire_stream(msgs, lines):
+    st = b""
+    for m, l in zip(msgs, lines):
+        if m["payload"] is None:
+            st += l
+        else:
+            st += l[:-1] + b"&bytes=" + str(len(m["payload"])).encode() + b"\n" + bytes(m["payload"])
+    return st
+
+
+def chunks_of(stream, cuts):
+    if cuts == "bytes":
+        cuts = list(range(1, len(stream)))
+    out, prev = [], 0
+    for c in [c for c in cuts if c < len(stream)] + [len(stream)]:
+        if c > prev:
+            out.append(stream[prev:c])
+            prev = c
+    return out
+
+
+def tag_delivered(cmd, kw):
+    if not isinstance(kw, dict):
+        return {"cmd": cmd, "notdict": repr(kw)}
+    d = {"cmd": cmd, "kw": [], "raw": None}
+    plain = {}
+    for k, v in kw.items():
+        if k == "rawbytes" and isinstance(v, (bytes, bytearray)):
+            d["raw"] = list(v)
+        else:
+            d["kw"].append([k, tagv(v)])
+            plain[k] = v
+    if is_nested(d["kw"]):
+        from mpf.core.bcp.bcp_socket_client import MpfJSONEncoder
+        d["jsontext"] = json.dumps(plain, cls=MpfJSONEncoder)
+    return d
+
+
+def read_session(which, chunks, debug):
+    """one client object for the whole history; returns what read_message handed out, message by message"""
+    loop = asyncio.new_event_loop()
+    try:
+        reader = asyncio.StreamReader(loop=loop)
+        cli, cap = _mk_client(which, reader, debug)
+        got, objs = [], []
+        state = {"dead": False, "err": None}
+
+        async def pump():
+            try:
+                while True:
+                    cmd, kw = await cli.read_message()
+                    got.append(tag_delivered(cmd, kw))      # snapshot at delivery time
+                    objs.append(kw)
+            except asyncio.CancelledError:
+                raise
+            except Exception as e:
+                state["dead"] = True
+                state["err"] = type(e).__name__
+
+        task = loop.create_task(pump())
+        for ch in chunks:
+            reader.feed_data(bytes(ch))
+            for _ in range(3):
+                loop.run_until_complete(asyncio.sleep(0))
+        for _ in range(3):
+            loop.run_until_complete(asyncio.sleep(0))
+        if not task.done():
+            task.cancel()
+            try:
+                loop.run_until_complete(task)
+            except BaseException:
+                pass
+        # the delivered objects belong to their receivers: distinct, and unchanged by later messages
+        alias = len({id(o) for o in objs if isinstance(o, (dict, list))}) != len([o for o in objs if isinstance(o, (dict, list))])
+        later = [tag_delivered(g["cmd"], o) for g, o in zip(got, objs)]
+        return {"got": got, "dead": state["dead"], "err": state["err"], "aliased": alias, "changed_later": later != got,
+                "closed": cap.closed}
+    finally:
+        loop.close()
+
+
+@isolated
+def run_session(case):
+    msgs = case["msgs"]
+    sent = {}
+    for which in ("asyncio", "mpf"):
+        cli, cap = _mk_client(which, None, case.get("debug"))
+        for m in msgs:
+            cli.send(m["cmd"], {k: untag(t) for k, t in m["kw"]})
+        sent[which] = [list(b) for b in cap.data]
+    out = {"sent": sent["asyncio"], "sent_mpf": sent["mpf"] if sent["mpf"] != sent["asyncio"] else "same"}
+    if len(sent["asyncio"]) != len(msgs):
+        out["sent_count"] = len(sent["asyncio"])
+        return out
+    stream = wire_stream(msgs, [bytes(b) for b in sent["asyncio"]])
+    chunks = chunks_of(stream, case["cuts"])
+    out["lens"] = [len(c) for c in chunks[:-1]]
+    out["asyncio"] = read_session("asyncio", chunks, False)
+    out["mpf"] = read_session("mpf", chunks, case.get("debug"))
+    out["jsontexts"] = [json.dumps({k: untag(t) for k, t in m["kw"]},
+                                   cls=__import__("mpf.core.bcp.bcp_socket_client", fromlist=["x"]).MpfJSONEncoder)
+                        if is_nested(m["kw"]) else None for m in msgs]
+    return out
+
+
+def expected_session(msgs, which):
+    """per-message expectation, computed from each message alone.  Returns (delivered list, dead, precise)"""
+    exp = []
+    for m in msgs:
+        if has_marker(m["cmd"], m["kw"]):
+            return exp, None, "marker"                    # recorded defect marker-in-line: framing is lost from here on
+        raw = m["payload"] if m["payload"] else None
+        if which == "mpf" and m["cmd"] == "hello":
+            continue
+        if which == "mpf" and m["cmd"] == "goodbye":
+            if m["kw"] or raw:
+                return exp, True, "goodbye-args"          # the peer broke the protocol: _receive_goodbye() takes no arguments
+            continue
+        exp.append({"cmd": m["cmd"], "kw": [[k, canon(t)] for k, t in m["kw"]], "raw": raw})
+    return exp, False, None
+
+
+def canon_got(g):
+    if "notdict" in g:
+        return g
+    return {"cmd": g["cmd"], "kw": [[k, canon(t)] for k, t in g["kw"]], "raw": g["raw"]}
+
+
+def oracle_session(case, out):
+    fails = []
+    msgs = case["msgs"]
+    if "sent_count" in out:
+        return [{"sig": "send-dropped", "what": "send() wrote %d messages for %d calls" % (out["sent_count"], len(msgs))}]
+    if out["sent_mpf"] != "same":
+        fails.append({"sig": "two-senders-differ", "what": "BCPClientSocket.send and AsyncioBcpClientSocket.send wrote different bytes"})
+    for b in out["sent"]:
+        if b.count(10) != 1 or b[-1] != 10:
+            fails.append({"sig": "send-not-one-line", "what": "send() did not write exactly one newline-terminated line: %r" % bytes(b)})
+            break
+    for which in ("asyncio", "mpf"):
+        o = out[which]
+        exp, dead, special = expected_session(msgs, which)
+        got = [canon_got(g) for g in o["got"]]
+        if o["aliased"] or o["changed_later"]:
+            fails.append({"sig": "delivered-aliased", "what": "%s reader: kwargs objects handed out for different messages are "
+                          "the same object / changed after delivery" % which})
+        if special == "marker":
+            if got[:len(exp)] == exp and got != _full_expect(msgs, which):
+                fails.append({"sig": "marker-in-line", "what": "a message whose line contains '&bytes=' (parameter named 'bytes' "
+                              "after the first one, or a nested string containing the marker) destroys the framing"})
+            elif got[:len(exp)] != exp:
+                fails.append({"sig": "session-delivery", "what": "%s reader: messages before the first marker-in-line message "
+                              "differ: got %r want %r" % (which, got[:len(exp)], exp)})
+            continue
+        if got != exp or bool(o["dead"]) != bool(dead):
+            i = next((j for j in range(min(len(got), len(exp))) if got[j] != exp[j]), min(len(got), len(exp)))
+            fails.append({"sig": "session-delivery",
+                          "what": "%s reader, one connection: delivered message #%d is %r, expected %r (delivered %d of %d, dead=%r "
+                                  "err=%r)" % (which, i, got[i] if i < len(got) else None, exp[i] if i < len(exp) else None,
+                                               len(got), len(exp), o["dead"], o["err"])})
+    return fails
+
+
+def _full_expect(msgs, which):
+    exp = []
+    for m in msgs:
+        if which == "mpf" and m["cmd"] in ("hello", "goodbye"):
+            continue
+        exp.append({"cmd": m["cmd"], "kw": [[k, canon(t)] for k, t in m["kw"]], "raw": m["payload"] if m["payload"] else None})
+    return exp
+
+
+def cdelivered(g):
+    pl = opt(g["raw"], zlist)
+    if "jsontext" in g:
+        return "(Dl (DJson %s %s) %s)" % (zlist(g["cmd"].encode()), zlist(g["jsontext"].encode()), pl)
+    return "(Dl (DKw %s %s) %s)" % (zlist(g["cmd"].encode()),
+                                    coqlist("(%s, DVal %s)" % (zlist(k.encode()), cv(t)) for k, t in g["kw"]), pl)
+
+
+def csmsg(m, jsontext):
+    body = "(SJson %s)" % zlist(jsontext.encode()) if jsontext is not None else \
+        "(SFlat %s)" % coqlist("(%s,%s)" % (zlist(k.encode()), cv(t)) for k, t in m["kw"])
+    return "(SM %s %s %s)" % (zlist(m["cmd"].encode()), body, opt(m["payload"], zlist))
+
+
+def okfloats(msgs):
+    okf = []
+    for m in msgs:
+        for k, t in m["kw"]:
+            if t[0] == "f":
+                okf.append(str(float(t[1])))
+    return "(%s : list (list Z))" % coqlist(zlist(x.encode()) for x in sorted(set(okf)))
+
+
+def session_in_domain(case, out):
+    if "sent_count" in out:
+        return False
+    for which in ("asyncio", "mpf"):
+        for g in out[which]["got"]:
+            if "notdict" in g or any(t[0] == "?" for _, t in g["kw"]):
+                return False
+        if out[which]["err"] not in (None, "ValueError", "TypeError"):
+            return False
+    return True
+
+
+def coq_session(case, out):
+    if not session_in_domain(case, out):
+        return None
+    msgs = case["msgs"]
+    inp = "(%s, (%s : list smsg), (%s : list Z))" % (okfloats(msgs), coqlist(csmsg(m, j) for m, j in zip(msgs, out["jsontexts"])),
+                                                     zlist(out["lens"]))
+
+    def res(o):
+        return "((%s : list delivered), %s)" % (coqlist(cdelivered(g) for g in o["got"]), blit(o["dead"]))
+    exp = "((%s : list (list Z)), (%s, %s))" % (coqlist(zlist(b) for b in out["sent"]), res(out["asyncio"]), res(out["mpf"]))
+    return "(%s, %s)" % (inp, exp)
+
+
+def shrink_session(case):
+    ms = case["msgs"]
+    for i in range(len(ms)):
+        yield dict(case, msgs=ms[:i] + ms[i + 1:])
+    if case["cuts"]:
+        yield dict(case, cuts=[])
+        if case["cuts"] != "bytes":
+            for i in range(len(case["cuts"])):
+                yield dict(case, cuts=case["cuts"][:i] + case["cuts"][i + 1:])
+    for i, m in enumerate(ms):
+        if m["payload"]:
+            yield dict(case, msgs=ms[:i] + [dict(m, payload=m["payload"][:1])] + ms[i + 1:])
+        for j in range(len(m["kw"])):
+            # the same reduction on every copy of the message keeps recurring lines recurring
+            kw2 = m["kw"][:j] + m["kw"][j + 1:]
+            yield dict(case, msgs=[dict(x, kw=kw2) if x["kw"] == m["kw"] and x["cmd"] == m["cmd"] else x for x in ms])
+
+
+def nontrivial_session(case, out):
+    seen = {}
+    for m in case["msgs"]:
+        seen.setdefault(json.dumps([m["cmd"], m["kw"]]), set()).add(bool(m["payload"]))
+    return any(len(v) == 2 for v in seen.values()) and len(out.get("lens", [])) >= 1
+
+
+def describe_session(case):
+    n = len(case["msgs"])
+    rec = n - len({json.dumps([m["cmd"], m["kw"]]) for m in case["msgs"]})
+    return "msgs=%s recurring=%s" % ("2-4" if n <= 4 else "5-8" if n <= 8 else "9-12", "0" if rec == 0 else "1-3" if rec <= 3 else ">3")
+
+
+HDR_SESSION = "From C19 Require Import Model.\nDefinition run := session_e2e.\nDefinition out_eqb := sess_out_eqb.\n"
+
+SUITES.append(
+    Suite("session", gen_session, run_session, HDR_SESSION, coq_session, oracle_session, shrink_session, nontrivial_session,
+          {"quick": 400, "thorough": 16000}, describe=describe_session, shard=100))
+
+
+# ------------------------------------------------------------------------------------------------
+# reader -> BcpTransportManager._receive_loop -> BcpInterface.process_bcp_message -> registered handler, in a real machine,
+# under the configuration switches that alter that path (connection made by MPF / accepted by the BCP server; logging of
+# bcp_interface and bcp_client: none / basic / full to console or file), and the way back: an event a client registered
+# for (register_trigger) -> BcpInterface.bcp_trigger -> transport manager -> BCPClientSocket.send -> socket.
+HANDLER_CONFIGS = [
+    {"name": "connect/basic", "server": False, "logging": None},
+    {"name": "connect/file-full", "server": False,
+     "logging": {"console": {"bcp_interface": "basic", "bcp_client": "basic"}, "file": {"bcp_interface": "full", "bcp_client": "full"}}},
+    {"name": "server/console-full", "server": True,
+     "logging": {"console": {"bcp_interface": "full", "bcp_client": "full"}, "file": {"bcp_interface": "basic", "bcp_client": "none"}}},
+    {"name": "server/none", "server": True,
+     "logging": {"console": {"bcp_interface": "none", "bcp_client": "none"}, "file": {"bcp_interface": "none", "bcp_client": "none"}}},
+]
+REGISTERED = ["vh_a", "vh_b"]
+HANDLER_CMDS = ["vh_a", "vh_a", "vh_b", "vnope", "hello"]
+OUT_EVENTS = ["verif_out_a", "verif_out_b"]
+IN_EVENTS = ["verif_in_a", "verif_in_b"]             # events the harness listens to; verif_in_none has no handler
+PKEYS = [k for k in SKEYS if k not in ("name", "bytes", "", "int:")] + ["value"]
+
+
+def gen_handler(rng, tier, i):
+    pool = []
+    while len(pool) < rng.randint(1, 3):
+        m = gen_msg(rng)
+        if m["cmd"] == "goodbye":
+            continue
+        if rng.random() < 0.3:
+            # the built-in trigger command: name first, flat parameters (no 'callback': _bcp_receive_trigger pops it twice)
+            kw = [kv for kv in m["kw"] if kv[0] in PKEYS and kv[0] != "value"]
+            if is_nested(kw):
+                continue
+            pool.append({"cmd": "trigger", "kw": [["name", ["s", rng.choice(IN_EVENTS + ["verif_in_none"])]]] + kw})
+            continue
+        pool.append({"cmd": rng.choice(HANDLER_CMDS), "kw": [kv for kv in m["kw"] if kv[0] != "client"]})
+    pays = [None, None] + [rng.choice(PAYLOADS) for _ in range(2)] + [[rng.randrange(256) for _ in range(rng.choice([1, 5, 300]))]]
+    msgs = []
+    for _ in range(rng.randint(2, 8)):
+        m = rng.choice(pool)
+        msgs.append({"cmd": m["cmd"], "kw": m["kw"], "payload": rng.choice(pays)})
+    cuts = sorted(set(rng.randrange(0, 40 * len(msgs)) for _ in range(rng.choice([0, 1, 2, 4, 8]))))
+    posts = []
+    for _ in range(rng.choice([0, 1, 1, 2, 3])):
+        while True:
+            n = rng.choice([0, 1, 2, 3])
+            keys = []
+            while len(keys) < n:
+                k = rng.choice(PKEYS)
+                if k not in keys:
+                    keys.append(k)
+            nested = rng.random() < 0.2
+            kw = [[k, tagv(clean_nested(rng) if nested else clean_scalar(rng))] for k in keys]
+            ev = rng.choice(OUT_EVENTS)
+            if not has_marker("trigger", [["name", ["s", ev]]] + kw):
+                break
+        posts.append({"event": ev, "kw": kw})
+    return {"config": rng.randrange(len(HANDLER_CONFIGS)), "msgs": msgs, "cuts": cuts, "posts": posts}
+
+
+_HR = {}
+
+
+class _LogSink(__import__("logging").Handler):
+    """debug records are really formatted (so that whatever the logging branch does to its arguments happens)"""
+    def emit(self, record):
+        try:
+            _HR["last_log"] = record.getMessage()[:200]
+        except Exception as e:   # noqa
+            _HR["log_error"] = "%s: %s" % (type(e).__name__, e)
+
+
+def _handler_rig(ci):
+    if ci in _HR:
+        return _HR[ci]
+    import logging
+    from rig import Rig
+    from mpf.tests.loop import MockQueueSocket, MockServer
+    cfg = HANDLER_CONFIGS[ci]
+
+    class Sock(MockQueueSocket):
+        def send(self, data):
+            if data == b'reset\n':
+                self.recv_queue.append(b'reset_complete\n')
+                return len(data)
+            return super().send(data)
+
+    def mock_loop(r):
+        if cfg["server"]:
+            r.mock_server = MockServer(r.clock.loop)
+            r.clock.mock_server("127.0.0.1", 5051, r.mock_server)
+        else:
+            r.client_socket = Sock(r.loop)
+            r.clock.mock_socket("localhost", 5050, r.client_socket)
+
+    patches = {"bcp": {"connections": []} if cfg["server"] else {"servers": []}}
+    if cfg["logging"]:
+        patches["logging"] = cfg["logging"]
+    r = Rig({}, use_bcp=True, mock_loop=mock_loop, patches=patches)
+    if cfg["server"]:
+        del r.machine_config_patches["bcp"]
+        r.machine_config_patches["bcp"] = {"connections": []}
+    else:
+        r.machine_config_patches["bcp"] = {"servers": []}
+    r.start()
+    if cfg["server"]:
+        r.client_socket = Sock(r.loop)
+        r.machine.clock.loop.run_until_complete(r.mock_server.add_client(r.client_socket))
+        r.advance(1)
+    if cfg["logging"]:
+        for name in ("BcpInterface", "BCPClientSocket"):
+            lg = logging.getLogger(name)
+            lg.setLevel(1)
+            lg.propagate = False
+            lg.addHandler(_LogSink())
+    log = []
+
+    def mk(cmd):
+        async def handler(client, **kwargs):
+            log.append((cmd, kwargs))
+        return handler
+    for cmd in REGISTERED + ["vh_sync"]:
+        r.machine.bcp.interface.register_command_callback(cmd, mk(cmd))
+
+    def mke(ev):
+        def on_event(**kwargs):
+            log.append(("event:" + ev, kwargs))
+        return on_event
+    for ev in IN_EVENTS:
+        r.machine.events.add_handler(ev, mke(ev))
+    for ev in OUT_EVENTS:
+        r.client_socket.recv_queue.append(("register_trigger?event=%s\n" % ev).encode())
+    r.advance(1)
+    _drain(r)
+    r._verif_log = log
+    r._verif_sync = 0
+    _HR[ci] = r
+    return r
+
+
+def _drain(r):
+    out = []
+    q = r.client_socket.send_queue
+    while not q.empty():
+        out.append(q.get_nowait())
+    return b"".join(out)
+
+
+def _sync(r):
+    """the connection is at a message boundary and alive: a sentinel command arrives, alone"""
+    r._verif_sync += 1
+    del r._verif_log[:]
+    r.client_socket.recv_queue.append(("vh_sync?id=int:%d\n" % r._verif_sync).encode())
+    r.advance(1)
+    ok = len(r._verif_log) == 1 and r._verif_log[0][0] == "vh_sync" and r._verif_log[0][1] == {"id": r._verif_sync}
+    del r._verif_log[:]
+    return ok
+
+
+def run_handler(case):
+    from mpf.core.bcp.bcp_socket_client import encode_command_string, MpfJSONEncoder
+    ci = case["config"]
+    r = None
+    for attempt in range(2):
+        try:
+            r = _handler_rig(ci)
+            if _sync(r) and r.exception() is None:
+                break
+        except Exception:   # noqa
+            pass
+        # a previous case left this connection broken (only happens on a changed implementation): start afresh
+        old = _HR.pop(ci, None)
+        if old is not None:
+            old.stop()
+        r = None
+    if r is None:
+        return {"setup_failed": True}
+    msgs = case["msgs"]
+    lines = [(encode_command_string(m["cmd"], **{k: untag(t) for k, t in m["kw"]}) + "\n").encode() for m in msgs]
+    stream = wire_stream(msgs, lines)
+    _drain(r)
+    out = {"config": HANDLER_CONFIGS[ci]["name"]}
+    try:
+        for ch in chunks_of(stream, case["cuts"]):
+            r.client_socket.recv_queue.append(ch)
+        r.advance(2)
+        got = [tag_delivered(c, kw) for c, kw in r._verif_log]
+        objs = [kw for _, kw in r._verif_log]
+        out["got"] = got
+        out["aliased"] = len({id(o) for o in objs}) != len(objs)
+        out["replies"] = list(_drain(r))
+        sent = []
+        for p in case["posts"]:
+            r.machine.events.post(p["event"], **{k: untag(t) for k, t in p["kw"]})
+            r.advance(0.5)
+            sent.append(list(_drain(r)))
+        out["sent"] = sent
+        out["alive"] = _sync(r)
+        exc = r.exception()
+        out["exception"] = None if exc is None else repr(exc)[:300]
+    except Exception as e:   # noqa  (the rig re-raises what the machine's loop caught)
+        out["exception"] = "%s: %s" % (type(e).__name__, str(e)[:300])
+        out.setdefault("got", [])
+        out.setdefault("sent", [])
+        out["alive"] = False
+    if out.get("exception") or not out.get("alive"):
+        old = _HR.pop(ci, None)
+        if old is not None:
+            old.stop()
+    out["jsontexts"] = [json.dumps({k: untag(t) for k, t in m["kw"]}, cls=MpfJSONEncoder) if is_nested(m["kw"]) else None
+                        for m in msgs]
+    out["post_jsontexts"] = [json.dumps(dict([("name", p["event"])] + [(k, untag(t)) for k, t in p["kw"]]), cls=MpfJSONEncoder)
+                             if is_nested(p["kw"]) else None for p in case["posts"]]
+    stream_len = len(stream)
+    out["lens"] = [len(c) for c in chunks_of(stream, case["cuts"])[:-1]]
+    return out
+
+
+def oracle_handler(case, out):
+    from mpf.core.bcp.bcp_socket_client import decode_command_string
+    if out.get("setup_failed"):
+        return [{"sig": "handler-path-dead", "what": "the BCP connection of a freshly booted machine does not deliver a command"}]
+    fails = []
+    cfg = out["config"]
+    exp = []
+    for m in case["msgs"]:
+        raw = m["payload"] if m["payload"] else None
+        if m["cmd"] in REGISTERED:
+            exp.append({"cmd": m["cmd"], "kw": [[k, canon(t)] for k, t in m["kw"]], "raw": raw})
+        elif m["cmd"] == "trigger" and m["kw"][0][1][1] in IN_EVENTS:
+            # the event is posted with the parameters sent (minus name), the payload, and the loop guard _from_bcp
+            exp.append({"cmd": "event:" + m["kw"][0][1][1],
+                        "kw": [[k, canon(t)] for k, t in m["kw"][1:]] + [["_from_bcp", canon(["b", True])]], "raw": raw})
+    # commands are dispatched in the order sent; events posted for 'trigger' are handled by the event queue (FIFO among
+    # events, but possibly after the callback of a later command): two ordered logs
+    for kind, sel in (("command callback", lambda g: not g["cmd"].startswith("event:")),
+                      ("trigger event", lambda g: g["cmd"].startswith("event:"))):
+        got = [canon_got(g) for g in out["got"] if sel(g)]
+        want = [e for e in exp if sel(e)]
+        if got != want:
+            i = next((j for j in range(min(len(got), len(want))) if got[j] != want[j]), min(len(got), len(want)))
+            fails.append({"sig": "handler-delivery",
+                          "what": "config %s: %s #%d got %r, the message sent was %r (%d of %d calls)" %
+                                  (cfg, kind, i, got[i] if i < len(got) else None, want[i] if i < len(want) else None,
+                                   len(got), len(want))})
+            break
+    if out.get("aliased"):
+        fails.append({"sig": "delivered-aliased", "what": "config %s: handlers of different messages got the same kwargs object" % cfg})
+    if out.get("exception") or not out.get("alive"):
+        fails.append({"sig": "handler-path-dead", "what": "config %s: the connection died or the machine raised: %r" %
+                                                          (cfg, out.get("exception"))})
+    if out.get("replies"):
+        fails.append({"sig": "handler-unexpected-reply", "what": "config %s: MPF answered %r" % (cfg, bytes(out["replies"]))})
+    for p, b in zip(case["posts"], out["sent"]):
+        want = ("trigger", [["name", canon(["s", p["event"]])]] + [[k, canon(t)] for k, t in p["kw"]])
+        b = bytes(b)
+        ok = b.count(b"\n") == 1 and b.endswith(b"\n")
+        if ok:
+            try:
+                cmd, kw = decode_command_string(b[:-1].decode())
+                ok = isinstance(kw, dict) and (cmd, [[k, canon(tagv(v))] for k, v in kw.items()]) == want
+            except Exception:   # noqa
+                ok = False
+        if not ok:
+            fails.append({"sig": "trigger-send", "what": "config %s: event %r posted with %r reached the registered client as %r" %
+                                                         (cfg, p["event"], p["kw"], b)})
+            break
+    if len(out["sent"]) != len(case["posts"]) and not out.get("exception"):
+        fails.append({"sig": "trigger-send", "what": "config %s: %d posts, %d sends" % (cfg, len(case["posts"]), len(out["sent"]))})
+    return fails
+
+
+def coq_handler(case, out):
+    if out.get("setup_failed") or any("notdict" in g or any(t[0] == "?" for _, t in g["kw"]) for g in out["got"]):
+        return None
+    msgs = case["msgs"]
+    posts = [{"cmd": "trigger", "kw": [["name", ["s", p["event"]]]] + p["kw"], "payload": None} for p in case["posts"]]
+    inp = "(%s, (%s, %s), (%s : list smsg), (%s : list Z), (%s : list smsg))" % (okfloats(msgs), coqlist(zlist(c.encode()) for c in REGISTERED),
+                                          coqlist(zlist(c.encode()) for c in IN_EVENTS),
+                                          coqlist(csmsg(m, j) for m, j in zip(msgs, out["jsontexts"])), zlist(out["lens"]),
+                                          coqlist(csmsg(m, j) for m, j in zip(posts, out["post_jsontexts"])))
+    dead = bool(out.get("exception")) or not out.get("alive")
+
+    def chev(g):
+        if g["cmd"].startswith("event:"):
+            if "jsontext" in g:
+                raise ValueError("nested event parameters")
+            return "(HEvent %s %s %s)" % (zlist(g["cmd"][6:].encode()),
+                                          coqlist("(%s, DVal %s)" % (zlist(k.encode()), cv(t)) for k, t in g["kw"]),
+                                          opt(g["raw"], zlist))
+        return "(HCall %s)" % cdelivered(g)
+    exp = "((((%s : list hevent), (%s : list hevent)), %s), (%s : list (list Z)))" % (coqlist(chev(g) for g in out["got"] if not g["cmd"].startswith("event:")),
+                                    coqlist(chev(g) for g in out["got"] if g["cmd"].startswith("event:")),
+                                    blit(dead), coqlist(zlist(b) for b in out["sent"]))
+    return "(%s, %s)" % (inp, exp)
+
+
+def shrink_handler(case):
+    ms = case["msgs"]
+    for i in range(len(ms)):
+        yield dict(case, msgs=ms[:i] + ms[i + 1:])
+    for i in range(len(case["posts"])):
+        yield dict(case, posts=case["posts"][:i] + case["posts"][i + 1:])
+    if case["cuts"]:
+        yield dict(case, cuts=[])
+    for i, m in enumerate(ms):
+        if m["payload"] and len(m["payload"]) > 1:
+            yield dict(case, msgs=ms[:i] + [dict(m, payload=m["payload"][:1])] + ms[i + 1:])
+        for j in range(len(m["kw"])):
+            kw2 = m["kw"][:j] + m["kw"][j + 1:]
+            yield dict(case, msgs=[dict(x, kw=kw2) if x["kw"] == m["kw"] and x["cmd"] == m["cmd"] else x for x in ms])
+    for i, p in enumerate(case["posts"]):
+        for j in range(len(p["kw"])):
+            yield dict(case, posts=case["posts"][:i] + [dict(p, kw=p["kw"][:j] + p["kw"][j + 1:])] + case["posts"][i + 1:])
+
+
+HDR_HANDLER = "From C19 Require Import Model.\nDefinition run := handler_run.\nDefinition out_eqb := handler_out_eqb.\n"
+
+SUITES.append(
+    Suite("handler", gen_handler, run_handler, HDR_HANDLER, coq_handler, oracle_handler, shrink_handler,
+          lambda c, o: any(m["payload"] and (m["cmd"] in REGISTERED or m["cmd"] == "trigger") for m in c["msgs"]),
+          {"quick": 120, "thorough": 3000}, describe=lambda c: HANDLER_CONFIGS[c["config"]]["name"], shard=30, case_timeout=120))
+
+
+# ------------------------------------------------------------------------------------------------
+# bcp_pickle_client.py (anchored file): length-prefixed pickles (framing modelled: Model.v pk_frame/pkfeed; the pickles are
+# opaque byte strings observed at pickle.dumps / pickle.loads).
+# On the unpatched tree every send()/read_message() raises TypeError (pickle.dump/pickle.load instead of dumps/loads):
+# recorded finding pickle-client-broken, repaired by fixes/C19-pickle-client-loads-dumps.patch.
+def gen_pickle(rng, tier, i):
+    msgs = []
+    for _ in range(rng.randint(1, 5)):
+        c = gen_codec(rng, tier, 0)
+        if rng.random() < 0.3:
+            c["kw"].append(["rawbytes", ["y", [rng.randrange(256) for _ in range(rng.choice([0, 1, 7, 100]))]]])
+        msgs.append(c)
+    return {"msgs": msgs, "cuts": sorted(set(rng.randrange(0, 120 * len(msgs)) for _ in range(rng.choice([0, 1, 3, 9]))))}
+
+
+def untag_y(t):
+    return bytes(t[1]) if t[0] == "y" else untag(t)
+
+
+def run_pickle(case):
+    from unittest.mock import MagicMock
+    from mpf.core.bcp.bcp_pickle_client import BcpPickleClient
+    import mpf.core.bcp.bcp_pickle_client as pm
+    real = pm.pickle if not isinstance(pm.pickle, _PickleProxy) else pm.pickle.real
+    proxy = _PickleProxy(real)
+    pm.pickle = proxy
+    try:
+        out = _run_pickle(case, BcpPickleClient, MagicMock)
+    finally:
+        pm.pickle = real
+    out["blobs"] = [list(b) for b in proxy.dumped]
+    out["loaded"] = [list(b) for b in proxy.loaded]
+    return out
+
+
+class _PickleProxy:
+    """observation points: the byte strings pickle.dumps returned to send() and read_message() passed to pickle.loads"""
+    def __init__(self, real):
+        self.real = real
+        self.dumped = []
+        self.loaded = []
+
+    def dumps(self, obj, *a, **k):
+        b = self.real.dumps(obj, *a, **k)
+        self.dumped.append(b)
+        return b
+
+    def loads(self, b, *a, **k):
+        self.loaded.append(bytes(b))
+        return self.real.loads(b, *a, **k)
+
+    def __getattr__(self, name):
+        return getattr(self.real, name)
+
+
+def _run_pickle(case, BcpPickleClient, MagicMock):
+    out = {}
+    cap = _Cap()
+    try:
+        cli = BcpPickleClient(MagicMock(), "p", MagicMock())
+    except AssertionError as e:
+        out["send_error"] = "constructor AssertionError: %s" % str(e)[:60]
+        return out
+    cli._sender = cap
+    try:
+        for m in case["msgs"]:
+            cli.send(m["cmd"], {k: untag_y(t) for k, t in m["kw"]})
+    except TypeError as e:
+        out["send_error"] = "TypeError: %s" % e
+        return out
+    stream = b"".join(cap.data)
+    out["frames"] = [list(b) for b in cap.data]
+    out["lens"] = [len(c) for c in chunks_of(stream, case["cuts"])[:-1]]
+    loop = asyncio.new_event_loop()
+    try:
+        reader = asyncio.StreamReader(loop=loop)
+        rcv = BcpPickleClient(MagicMock(), "p", MagicMock())
+        rcv._receiver = reader
+        got = []
+        st = {}
+
+        async def pump():
+            try:
+                while True:
+                    res = await rcv.read_message()
+                    got.append(snapshot(list(res)) if isinstance(res, tuple) else "notuple:" + repr(res)[:80])
+            except asyncio.CancelledError:
+                raise
+            except Exception as e:   # noqa
+                st["err"] = "%s: %s" % (type(e).__name__, e)
+        task = loop.create_task(pump())
+        for ch in chunks_of(stream, case["cuts"]):
+            reader.feed_data(ch)
+            for _ in range(3):
+                loop.run_until_complete(asyncio.sleep(0))
+        if not task.done():
+            task.cancel()
+            try:
+                loop.run_until_complete(task)
+            except BaseException:
+                pass
+        out["got"] = got
+        out["err"] = st.get("err")
+    finally:
+        loop.close()
+    return out
+
+
+def oracle_pickle(case, out):
+    if "send_error" in out:
+        if "file must have a 'write' attribute" in out["send_error"] or \
+                out["send_error"].startswith("constructor AssertionError: Please specify a config name"):
+            return [{"sig": "pickle-client-broken", "what": "BcpPickleClient.send raises " + out["send_error"]}]
+        return [{"sig": "pickle-send", "what": "BcpPickleClient.send raises " + out["send_error"]}]
+    if out.get("err") and "file must have 'read' and 'readline' attributes" in out["err"] and not out["got"]:
+        return [{"sig": "pickle-client-broken", "what": "BcpPickleClient.read_message raises " + out["err"]}]
+    want = [snapshot([m["cmd"], {k: untag_y(t) for k, t in m["kw"]}]) for m in case["msgs"]]
+    if out["got"] != want or out.get("err"):
+        return [{"sig": "pickle-roundtrip", "what": "pickle transport: sent %r, received %r (error %r)" %
+                                                    (want, out["got"], out.get("err"))}]
+    return []
+
+
+def shrink_pickle(case):
+    ms = case["msgs"]
+    for i in range(len(ms)):
+        yield dict(case, msgs=ms[:i] + ms[i + 1:])
+    if case["cuts"]:
+        yield dict(case, cuts=[])
+    for i, m in enumerate(ms):
+        for j in range(len(m["kw"])):
+            yield dict(case, msgs=ms[:i] + [dict(m, kw=m["kw"][:j] + m["kw"][j + 1:])] + ms[i + 1:])
+
+
+def coq_pickle(case, out):
+    if "send_error" in out or (out.get("err") and not out["got"]):
+        return None          # unpatched tree: nothing is ever framed (recorded finding pickle-client-broken)
+    return "(((%s : list (list Z)), (%s : list Z)), ((%s : list (list Z)), (%s : list (list Z))))" % (coqlist(zlist(b) for b in out["blobs"]), zlist(out["lens"]),
+                                     coqlist(zlist(b) for b in out["frames"]), coqlist(zlist(b) for b in out["loaded"]))
+
+
+HDR_PICKLE = "From C19 Require Import Model.\nDefinition run := pickle_run.\nDefinition out_eqb := pickle_out_eqb.\n"
+
+SUITES.append(
+    Suite("pickle", gen_pickle, run_pickle, HDR_PICKLE, coq_pickle, oracle_pickle, shrink_pickle,
+          lambda c, o: len(c["msgs"]) > 1 and bool(c["cuts"]), {"quick": 120, "thorough": 3000}, shard=30))
+
+
+# ------------------------------------------------------------------------------------------------
+# decode_command_string on lines the encoder would NOT produce (a foreign peer): duplicate and blank parameters, '+',
+# broken percent escapes, missing '=', scheme-like prefixes, typed prefixes with odd bodies.  Correspondence with the
+# byte-level decode model + the statefulness probe; there is no "sent value" to compare with, so no round-trip oracle.
+RAW_TOK = ["a", "b", "z", "K", "0", "5", "12", ".", "-", "~", "+", "%41", "%C3%A9", "%zz", "%4", "%", "%25", "%26", "%3D",
+           "%2B", "%3A", "=", "=", "&", "&", "&", "?", ";", ":", "#", "!", "*", "'", "(", ")", "é", "int:", "int:", "float:",
+           "bool:", "NoneType:", "true", "TRUE", "False", "1.5", "nan", "-0.0", "inf", "1e+20", "json", "name", "bytes", "_"]
+RAW_CMDS = ["trigger", "x", "a1_b", "", "T", "a1:b", "abc:", "x.y+z:q", "1a:b", ":x", "http:a", "é:b", "switch"]
+
+
+def gen_raw(rng, tier, i):
+    q = "".join(rng.choice(RAW_TOK) for _ in range(rng.choice([0, 1, 2, 3, 5, 8, 12])))
+    cmd = rng.choice(RAW_CMDS)
+    r = rng.random()
+    return {"line": cmd + "?" + q if r < 0.85 else cmd + q if r < 0.93 else cmd}
+
+
+@isolated
+def run_raw(case):
+    from mpf.core.bcp.bcp_socket_client import decode_command_string
+    line = case["line"]
+    out = {}
+    try:
+        cmd, dk = decode_command_string(line)
+    except ValueError:
+        return {"error": "ValueError"}
+    out["cmd"] = cmd
+    if not isinstance(dk, dict):
+        out["notdict"] = repr(dk)[:80]
+        return out
+    out["kw"] = [[k, tagv(v)] for k, v in dk.items()]
+    snap = snapshot(dk)
+    cmd2, dk2 = decode_command_string(line)
+    st = {"same_obj": dk2 is dk, "equal2": cmd2 == cmd and snapshot(dk2) == snap,
+          "shared_inner": bool(shared_mutables(dk, dk2)) and dk2 is not dk}
+    poison(dk)
+    poison(dk2)
+    cmd3, dk3 = decode_command_string(line)
+    st["equal3"] = cmd3 == cmd and snapshot(dk3) == snap
+    out["state"] = st
+    return out
+
+
+def _typed_bodies(line, prefix):
+    """over-approximation of the texts that can follow a typed prefix in a decoded value of this line"""
+    from urllib.parse import unquote
+    txt = unquote(line.replace("+", " "))
+    res = []
+    start = 0
+    while True:
+        j = txt.find(prefix, start)
+        if j < 0:
+            return res
+        rest = txt[j + len(prefix):]
+        cuts = [k for k, c in enumerate(rest) if c == "&"] + [len(rest)]
+        res += [rest[:k] for k in cuts]
+        start = j + 1
+
+
+def raw_domain(line):
+    if "json=" in line.split("?", 1)[-1][:5] or "�" in __import__("urllib.parse", fromlist=["x"]).unquote(line):
+        return None
+    for b in _typed_bodies(line, "int:"):
+        if any(c == "_" or c.isspace() or (c.isdigit() and not c.isascii()) for c in b):
+            return None           # int() strips whitespace and accepts '_' / non-ASCII digits: outside the model's int grammar
+    okf = []
+    for b in _typed_bodies(line, "float:"):
+        if float_text_ok(b):
+            if repr(float(b)) != b:
+                return None       # float text that is not its own repr: the model carries floats as text
+            okf.append(b)
+    return sorted(set(okf))
+
+
+def coq_raw(case, out):
+    okf = raw_domain(case["line"])
+    if okf is None or "notdict" in out:
+        return None
+    if "error" in out:
+        exp = "(@None decoded)"
+    else:
+        if any(t[0] not in "sifbn" for _, t in out["kw"]):
+            return None
+        exp = "(Some (DKw %s %s))" % (zlist(out["cmd"].encode()),
+                                      coqlist("(%s, DVal %s)" % (zlist(k.encode()), cv(t)) for k, t in out["kw"]))
+    return "(((%s : list (list Z)), %s), %s)" % (coqlist(zlist(x.encode()) for x in okf), zlist(case["line"].encode()), exp)
+
+
+def oracle_raw(case, out):
+    st = out.get("state")
+    if st and (st["same_obj"] or st["shared_inner"] or not st["equal2"] or not st["equal3"]):
+        return [{"sig": "decode-stateful", "what": "decode_command_string is not a function of the line: repeated calls on %r: %r" %
+                                                   (case["line"], st)}]
+    return []
+
+
+def shrink_raw(case):
+    l = case["line"]
+    for i in range(len(l)):
+        yield {"line": l[:i] + l[i + 1:]}
+
+
+HDR_RAW = ("From C19 Require Import Model.\n"
+           "Definition run (i : list bytes * bytes) : option decoded :=\n"
+           "  let d := decode (fun t => mem_key t (fst i)) (snd i) in if has_err d then None else Some d.\n"
+           "Definition out_eqb := option_eqb decoded_eqb.\n")
+
+SUITES.append(
+    Suite("rawline", gen_raw, run_raw, HDR_RAW, coq_raw, oracle_raw, shrink_raw,
+          lambda c, o: "kw" in o and len(o["kw"]) >= 1, {"quick": 1000, "thorough": 40000}, shard=250))
+
+LEVEL_TEXT = ("Machine-checked proof (Coq, 29 theorems, no axioms) about a byte-level model of the BCP codec, both socket "
+              "readers, the senders, the reader-to-handler path and the pickle framing: decode(encode(cmd,kw)) = (cmd,kw) "
+              "exactly when (roundtrip_exact) the dictionary is outside two recorded ambiguity classes; for every history "
+              "of such messages on one connection, with any payloads and any cutting of the byte stream into reads, "
+              "read_message returns and the registered handler / trigger event receives exactly the messages sent, in "
+              "order, each with its own parameters and payload (session_roundtrip_partial, handler_receives_sent; guard "
+              "no_marker_keys, refuted without it: recorded finding marker-in-line); json.dumps text is printed by the model "
+              "and proved free of raw newlines; the model is tied to /repo by running both on the same generated inputs on "
+              "every run, and each property clause is also checked directly on the implementation's output.")
 LEVEL_NOTE = ("Trusted: Coq kernel + vm_compute; no axioms. Model hand-written; correspondence (differential) validates it "
-              "against the working tree; json/utf-8/int()/float() text conversions and asyncio.StreamReader are CPython, "
-              "treated as data/oracles. The reader model is byte-at-a-time by construction; its tie to read_message is the "
-              "correspondence run over random splits.")
-TECHNIQUE = "Coq proof over hand-written executable model + differential correspondence (vm_compute) + direct round-trip oracle"
+              "against the working tree on every run; json.loads/utf-8/int()/float()/pickle and asyncio.StreamReader are "
+              "CPython, treated as data/oracles. The reader model is byte-at-a-time by construction; its tie to "
+              "read_message is the correspondence run over random splits. Statefulness (a decoder or dispatcher with "
+              "memory) cannot be expressed in the model: it is detected by the session/handler correspondence on recurring "
+              "lines and by the decode-stateful / delivered-aliased oracles. The pickle transport is modelled as FIXED by "
+              "fixes/C19-pickle-client-loads-dumps.patch; on the unpatched tree it is a recorded finding and not tied.")
+TECHNIQUE = ("Coq proof over hand-written executable model + differential correspondence (vm_compute) on single messages and on "
+             "whole connection histories + direct round-trip / delivery / statefulness oracles")
 DESIGN_REF = "DESIGN.md section 3, C19"
